@@ -312,6 +312,27 @@ theorem add_node_error_fresh (s : H) (node : NRef) (nid : Option Int) (af : Nat)
   · rw [nodeIsPart_of_id_none s node hid] at h; cases h
   · exact ⟨he, h⟩
 
+/-- the reference that the model will allocate next is not part of a consistent graph: the guard does not fire -/
+theorem nodeIsPart_fresh (s : H) (node : NRef) (af : Nat) (hc : Consistent (absS s node af)) :
+    nodeIsPart s node = false := by
+  cases h : nodeIsPart s node with
+  | false => rfl
+  | true =>
+    obtain ⟨k, _, hk⟩ := (nodeIsPart_iff s node).1 h
+    rw [dictGet_eq_dget] at hk
+    have hm : node ∈ s.nodes := ((hc.idx.id_exact k node).1 hk).1
+    exact absurd (hc.nodes.fresh node hm) (Nat.lt_irrefl _)
+
+/-- a node of a consistent graph (whose `id` is set) is recognised by the guard -/
+theorem nodeIsPart_member (s : H) (node : NRef) (nf af : Nat) (hc : Consistent (absS s nf af))
+    (hm : node ∈ s.nodes) (hid : (s.n node).id.isSome = true) : nodeIsPart s node = true := by
+  obtain ⟨k, hk⟩ := Option.isSome_iff_exists.1 hid
+  refine (nodeIsPart_iff s node).2 ⟨k, hk, ?_⟩
+  rw [dictGet_eq_dget]
+  refine (hc.idx.id_exact k node).2 ⟨hm, ?_⟩
+  show (s.n node).id.getD 0 = k
+  rw [hk]; rfl
+
 /-- an object that is already part of the graph is rejected, whatever id is asked for -/
 theorem add_node_rejects_part (s : H) (node : NRef) (nid : Option Int) (h : nodeIsPart s node = true) :
     graph_add_node s node nid = .error .valueError := by
@@ -992,6 +1013,15 @@ theorem foldl_aaEntry_resolve (a : Nat) (s : H) (l : List Int) (en : List NRef)
         rw [this]
         exact ih r hr _ (by rw [(Frame.updA t a _).idIdx]; exact ht)
 
+theorem compromise_aid (s : H) (a : ARef) (n : NRef) (b : ARef) : ((attacker_compromise s a n).a b).id = (s.a b).id := by
+  rw [compromise_eq]
+  split
+  · rfl
+  · show (if b = a then _ else _ : PyAttacker).id = _
+    by_cases hb : b = a
+    · subst hb; rw [if_pos rfl]
+    · rw [if_neg hb]; rfl
+
 theorem absS_foldl_aaComp (a : ARef) (nf af : Nat) (rn : List NRef) (s : H) :
     absS (rn.foldl (aaComp a) s) nf af = rn.foldl (fun t n => compromise t a n) (absS s nf af) := by
   induction rn generalizing s with
@@ -1172,6 +1202,24 @@ theorem add_attacker_error_fresh (s : H) (a : ARef) (aid : Option Int) (entry re
     · rw [(aaResolve_eq_none s reached).2 hu]; rfl
     · rw [(aaResolve_eq_none s entry).2 hu]
       cases aaResolve s reached <;> rfl
+
+theorem attIsPart_fresh (s : H) (a : ARef) (nf : Nat) (hc : Consistent (absS s nf a)) : attIsPart s a = false := by
+  cases h : attIsPart s a with
+  | false => rfl
+  | true =>
+    obtain ⟨k, _, hk⟩ := (attIsPart_iff s a).1 h
+    rw [dictGet_eq_dget] at hk
+    have hm : a ∈ s.attackers := ((hc.attIdx.id_exact k a).1 hk).1
+    exact absurd (hc.attIdx.fresh a hm) (Nat.lt_irrefl _)
+
+theorem attIsPart_member (s : H) (a : ARef) (nf af : Nat) (hc : Consistent (absS s nf af))
+    (hm : a ∈ s.attackers) (hid : (s.a a).id.isSome = true) : attIsPart s a = true := by
+  obtain ⟨k, hk⟩ := Option.isSome_iff_exists.1 hid
+  refine (attIsPart_iff s a).2 ⟨k, hk, ?_⟩
+  rw [dictGet_eq_dget]
+  refine (hc.attIdx.id_exact k a).2 ⟨hm, ?_⟩
+  show (s.a a).id.getD 0 = k
+  rw [hk]; rfl
 
 /-- an attacker object that is already part of the graph is rejected, whatever else is passed -/
 theorem add_attacker_rejects_part (s : H) (a : ARef) (aid : Option Int) (entry reached : List Int)
